@@ -189,6 +189,11 @@ def run(run, ix, tier):
         try:
             got = eval_contains(ix, cont, (sa, sb), (ta, tb), optable)
         except Unsupported as e:
+            if any(f.rule == 'F-R3' for f in run.findings):
+                # an operator method the containment test relies on is already reported as not
+                # being a plain dispatch to its kernel: `in` cannot be evaluated on top of it
+                run.notes.append('`in` not evaluated: %s' % e)
+                break
             raise AnalysisError('ivmpf.__contains__: %s' % e)
         want = (sa <= ta and tb <= sb)
         if bool(got) != want or got is None:
